@@ -110,7 +110,8 @@ func (c17) Exec(h []Ev) []Ev {
 	done, fail := GI(pr["done"]), GI(pr["fail"])
 	acc := packet.NewAccumulator(func(b []byte) (bool, error) {
 		if fail > 0 && len(b) >= fail {
-			return false, errPred
+			// the error has priority, also when the predicate says "complete" in the same breath
+			return done > 0 && len(b) >= done, errPred
 		}
 		return done > 0 && len(b) >= done, nil
 	})
@@ -255,7 +256,7 @@ func (c17) Table(rows []Ev, tier string, seed int64, rep *TableReport) {
 		done, fail := GI(pr["done"]), GI(pr["fail"])
 		acc := packet.NewAccumulator(func(b []byte) (bool, error) {
 			if fail > 0 && len(b) >= fail {
-				return false, errPred
+				return done > 0 && len(b) >= done, errPred
 			}
 			return done > 0 && len(b) >= done, nil
 		})
